@@ -1,5 +1,163 @@
-import KrillModel.Ca.ObjLemmas
+/-
+C01 — Published tree is relying-party valid and says exactly what was configured.
+
+Theorems over `Ca/RoaObjects.lean` (derivation of ROA/ASPA/router-certificate objects from the
+configuration), `Ca/Objects.lean` (manifests, repository synchronisation) and `Sys/Rp.lean` (an
+abstract relying party).  Helper lemmas: `Ca/RoaLemmas.lean`, `Ca/ObjLemmas*.lean`,
+`Sys/RpLemmas.lean`.
+-/
 import KrillModel.Ca.RoaLemmas
+import KrillModel.Ca.ObjLemmas
+import KrillModel.Ca.ObjLemmasSync
+import KrillModel.Sys.RpLemmas
 namespace KM.Props.C01
-open KM.Ca.Pub
+open KM.Ca.Pub KM.Sys.Rp
+
+/-! ### Objects say exactly what is configured and covered -/
+
+/-- For every reachable `Roas` state, every route set, every received certificate (cover
+predicate) and every pair of thresholds: after `create_updates` has been applied, the payloads of
+the ROA objects are exactly the configured routes the certificate covers – in every mode (simple,
+start aggregating, stop aggregating, aggregate) – each payload sits in exactly one object, and the
+state is again well-formed. -/
+theorem roas_payloads_exact (r : Roas) (hr : r.WF) (cov : Payload → Bool) (routes : List Payload)
+    (hroutes : routes.Nodup) (deagg agg : Nat) (mintS : Payload → ObjMeta) (mintA : AggKey → ObjMeta) :
+    let r' := r.apply (r.createUpdates cov routes deagg agg mintS mintA)
+    (∀ p, p ∈ r'.payloads ↔ (p ∈ routes ∧ cov p = true)) ∧ r'.payloads.Nodup ∧ r'.WF :=
+  createUpdates_exact r hr cov routes hroutes deagg agg mintS mintA
+
+/-- Non-vacuity: the initial state is well-formed, so by the theorem (and `renew_due_objects` of
+C14 for renewals) every state reached by any sequence of re-derivations is. -/
+example : (({} : Roas)).WF := wf_empty
+
+/-- A well-formed state in aggregation mode, with thresholds that make the next step stop
+aggregating. -/
+example : ∃ r : Roas, r.WF ∧ r.mode 1 2 2 = .stopAggregating := by
+  refine ⟨{ agg := [(⟨1, none⟩, ⟨[⟨1, false, 0, 24, 24⟩], default⟩)] }, ?_, by decide⟩
+  exact { simpleKeys := by simp [keys], aggKeys := by simp [keys], simpleAuth := by simp,
+          aggGroup := by simp, aggAsn := by simp, aggNodup := by simp, aggNonempty := by simp,
+          exclusive := Or.inl rfl }
+
+/-- The mode decision (both thresholds, hysteresis, `total = 0` never switches). -/
+theorem mode_characterisation (r : Roas) (total deagg agg : Nat) :
+    r.mode total deagg agg =
+      if r.isAggregating then (if 0 < total ∧ total < deagg then .stopAggregating else .aggregate)
+      else (if total > agg ∧ 0 < total then .startAggregating else .simple) := by
+  unfold Roas.mode
+  by_cases h0 : total = 0
+  · subst h0; cases r.isAggregating <;> simp
+  · have : 0 < total := Nat.pos_of_ne_zero h0
+    cases r.isAggregating <;> simp [h0, this]
+
+/-- ASPA objects: after `create_updates` there is exactly one object per configured customer AS
+the certificate holds, carrying exactly the configured definition – nothing else. -/
+theorem aspas_exact (objs : AspaObjects) (hasAsn : Nat → Bool) (defs : List AspaDefn)
+    (mint : AspaDefn → ObjMeta) (hw : AspaWF objs) (hd : (defs.map (·.customer)).Nodup) :
+    let objs' := aspaApply objs (aspaCreateUpdates objs hasAsn defs mint)
+    AspaWF objs' ∧ ∀ d, (∃ e ∈ objs', e.2.defn = d) ↔ (d ∈ defs ∧ hasAsn d.customer = true) :=
+  aspas_exact' objs hasAsn defs mint hw hd
+
+example : AspaWF [] := ⟨by simp [keys], by simp⟩
+
+/-- Router certificates: after `create_updates` there is exactly one certificate per configured
+(AS, key) whose AS the certificate holds. -/
+theorem bgpsec_exact (certs : RouterCerts) (hasAsn : Nat → Bool) (defs : List RouterKey)
+    (mint : RouterKey → ObjMeta) (hk : (keys certs).Nodup) (hd : defs.Nodup) :
+    let certs' := routerApply certs (routerCreateUpdates certs hasAsn defs mint)
+    (keys certs').Nodup ∧ ∀ k, k ∈ keys certs' ↔ (k ∈ defs ∧ hasAsn k.asn = true) :=
+  routers_exact certs hasAsn defs mint hk hd
+
+/-! ### Manifests -/
+
+/-- A manifest built at creation or re-issue lists the CRL and exactly the published objects. -/
+theorem manifest_lists_exactly (s : KeyObjectSet) (t : Timing) (i : IssueIn) (k : NewKey) :
+    ListsExactly (s.reissue t i) ∧ ListsExactly (k.create t) :=
+  ⟨(good_reissue s t i).2.1, (good_create k t).2.1⟩
+
+/-- … and this holds for every key set of every class after every command (whatever its events)
+and every republish run: changes of the object set always come with a re-issue. -/
+theorem manifest_lists_exactly_always (t : Timing) (o : CaObjects) (ops : List CaOp)
+    (h : ∀ s ∈ allSets o, GoodSet s) : ∀ s ∈ allSets (caRun t o ops), ListsExactly s :=
+  fun s hs => (good_caRun t ops o h s hs).2.1
+
+/-- With distinct names the listing is literally "CRL, then every published object". -/
+theorem manifest_entries (s : KeyObjectSet) (hg : GoodSet s) (hfresh : s.crlName ∉ keys s.published) :
+    s.manifest.entries = (s.crlName, s.crl.hash) :: s.published.map fun e => (e.1, e.2.hash) :=
+  entries_eq s hg hfresh
+
+/-! ### Repository synchronisation -/
+
+/-- `ca_repo_sync`: applying the delta computed from the server's list reply to ANY server content
+of the publisher yields exactly the map of `all_publish_elements` (a later duplicate URI wins, as
+in the code's `collect::<HashMap>`). -/
+theorem sync_repo_exact (server : List (Uri × Nat)) (hn : (keys server).Nodup) (o : CaObjects) :
+    (keys (syncRepo server o)).Nodup ∧
+    ∀ u, get? (syncRepo server o) u = get? (elementMap (allPublishElements o)) u :=
+  syncRepo_exact server (allPublishElements o) hn
+
+/-- Nothing to do ⇒ empty delta is *not* claimed; what is claimed is idempotence: a second sync
+leaves the content as it is. -/
+theorem sync_repo_idempotent (server : List (Uri × Nat)) (hn : (keys server).Nodup) (o : CaObjects) (u : Uri) :
+    get? (syncRepo (syncRepo server o) o) u = get? (syncRepo server o) u := by
+  obtain ⟨h1, h2⟩ := sync_repo_exact server hn o
+  rw [(sync_repo_exact _ h1 o).2 u, h2 u]
+
+/-! ### One CA level, composed
+
+Full statement (DESIGN `quiescent_valid`): for every history of API operations over a hierarchy of
+CAs, once the tasks are drained, `TreeValid` holds from the trust anchor and the validated
+payloads are exactly `⋃ configured(ca) ∩ covered-by-current-cert(ca)`.
+
+Proved here: one CA level, one key.  After *any* re-derivation of the ROAs (any reachable state,
+routes, thresholds) under the CA's certificate, for a key set that mirrors those objects and is
+well-formed (which `manifest_lists_exactly_always` / C03 `crl_lists_revocations_always` give along
+every history) and is inside its window, and after a repository synchronisation from ANY previous
+server content, a relying party that decodes the files faithfully accepts the publication point
+and extracts exactly the configured-and-covered payloads.
+
+Missing for the full statement: `Mirror` (`objects_mirror`) and the "unrevoked/unexpired" facts as
+invariants over histories (checked dynamically: oracle `ObjectsMirror`, `RpTreeValid`), child
+certificates and the recursion over the hierarchy (`TreeValid` with fuel is defined; checked
+dynamically by the relying-party walk), ASPA/router objects inside the composition, key rolls
+(two sets per class). -/
+theorem quiescent_valid_partial (r₀ : Roas) (hr : r₀.WF) (routes : List Payload) (hroutes : routes.Nodup)
+    (deagg agg : Nat) (mintS : Payload → ObjMeta) (mintA : AggKey → ObjMeta)
+    (ca : Cert) (s : KeyObjectSet) (rcn : Nat) (server : List (Uri × Nat)) (hsrv : (keys server).Nodup)
+    (cat : Catalog) (now : Nat) :
+    let r := r₀.apply (r₀.createUpdates ca.resources.coversPfx routes deagg agg mintS mintA)
+    let files := filesAfterSync server rcn s
+    Decodes cat ca.subject r s → GoodSet s → Mirror r s →
+    s.mftName = ca.mftName → s.crlName = ca.crlName → ca.mftName ≠ ca.crlName →
+    (keys s.published).Nodup → ca.mftName ∉ keys s.published → ca.crlName ∉ keys s.published →
+    (s.revision.thisUpdate ≤ now ∧ now < s.revision.nextUpdate) →
+    (∀ i ∈ infos r, now < i.obj.expires) → (∀ i ∈ infos r, i.obj.serial ∉ s.crl.revoked) →
+    PointValid cat files ca now = true ∧
+    PayloadsExact (pointVrps cat files ca) (routes.filter ca.resources.coversPfx) = true := by
+  intro r files hdec hgood hmir hm hc hne hnd hmf hcf hwin hexp hrev
+  obtain ⟨e1, _, e3⟩ := createUpdates_exact r₀ hr ca.resources.coversPfx routes hroutes deagg agg mintS mintA
+  obtain ⟨f1, f2⟩ := filesAfterSync_spec server hsrv rcn s hnd (by rw [hm, hc]; exact hne)
+    (by rw [hm]; exact hmf) (by rw [hc]; exact hcf)
+  have ready : Ready ca r s files now :=
+    { wf := e3, good := hgood, mirror := hmir, mftName := hm, crlName := hc, namesDiffer := hne,
+      mftFresh := hmf, crlFresh := hcf, filesNodup := f1, files := f2, window := hwin,
+      unexpired := hexp, unrevoked := hrev, covered := fun p hp => ((e1 p).mp hp).2 }
+  refine ⟨point_valid cat ca r s files now hdec ready, ?_⟩
+  simp only [PayloadsExact]
+  rw [sameMembers_iff]
+  intro p
+  rw [point_vrps cat ca r s files now hdec ready p, e1 p, List.mem_filter]
+
+/-- Non-vacuity of the composition: a concrete state (one simple ROA, fresh manifest) meets all
+hypotheses and the validator accepts it. -/
+example :
+    let ca : Cert := ⟨0, 1, .atoms [1], 10000, 5, 100, 101⟩
+    let p : Payload := ⟨64513, false, (10 * 256 + 1) * 65536, 24, 24⟩
+    let files : Files := [(100, 900), (101, 901), (7, 902)]
+    let cat : Catalog := fun h =>
+      if h = 900 then some (.mft ⟨1, 2, 0, 5000, [(101, 901), (7, 902)]⟩)
+      else if h = 901 then some (.crl ⟨1, 2, 0, 5000, []⟩)
+      else if h = 902 then some (.signed ⟨1, 77, 9000, .roa [p]⟩) else none
+    PointValid cat files ca 1000 = true ∧ pointVrps cat files ca = [p] := by
+  decide
+
 end KM.Props.C01
